@@ -162,8 +162,25 @@ func (g *G) names(min int) []string {
 			return all[:n]
 		}
 	}
+	if g.R.IntN(6) == 0 { // long lists (up to 14 names), with names repeated and repeated in another letter case
+		n = 7 + g.R.IntN(8)
+	}
 	out := make([]string, 0, n)
 	for i := 0; i < n; i++ {
+		if i > 0 && n > 5 && g.R.IntN(4) == 0 {
+			d := out[g.R.IntN(i)]
+			if g.R.IntN(2) == 0 { // ASCII letters only: names are octet strings
+				b := []byte(d)
+				for k, c := range b {
+					if c >= 'a' && c <= 'z' {
+						b[k] = c - 32
+					}
+				}
+				d = string(b)
+			}
+			out = append(out, d)
+			continue
+		}
 		out = append(out, g.Name())
 	}
 	return out
